@@ -39,7 +39,7 @@ def _alarm(signum, frame):
 
 
 def plan(tier):
-    return 22000 if tier == "quick" else 400000
+    return 24000 if tier == "quick" else 400000
 
 
 def boot_blob(n, sig=True):
@@ -71,6 +71,8 @@ def build_seed(k):
         cfg = Cfg(3, joliet=3, rr='1.12', udf=True)
     elif k == 9:
         cfg = Cfg(3)
+    elif k == 10:
+        cfg = Cfg(3, rr='1.09')
     else:
         cfg = Cfg(2, rr='1.09', joliet=2)
     h = common.History(cfg, 1000 + k, 'grow', max_size=3000)
@@ -82,7 +84,7 @@ def build_seed(k):
             h.apply({'op': 'add_directory', 'iso_path': '/A%02d/X' % a})
             h.apply({'op': 'add_directory', 'iso_path': '/A%02d/Y' % a})
     h.gen.uniq = 0
-    n = [25, 40, 30, 35, 30, 20, 20, 60, 90, 3][k]
+    n = [25, 40, 30, 35, 30, 20, 20, 60, 90, 3, 12][k]
     if k == 6:
         # deep relocated tree
         p = ''
@@ -91,7 +93,7 @@ def build_seed(k):
             h.apply({'op': 'add_directory', 'iso_path': p, 'rr_name': 'dir%d' % d})
             h.apply({'op': 'add_fp', 'cid': 500 + d, 'length': 100 * d, 'iso_path': p + '/F%d.;1' % d, 'rr_name': 'file%d' % d})
     h.extend(n)
-    if k in (4, 5):
+    if k in (4, 5, 10):
         # El Torito (+ isohybrid for 5)
         h.apply({'op': 'add_fp', 'cid': 700, 'length': 2048, 'data': boot_blob(2048), 'iso_path': '/BOOT.;1',
                  **({'rr_name': 'boot'} if cfg.rr else {}), **({'joliet_path': '/boot'} if cfg.joliet else {}), **({'udf_path': '/boot'} if cfg.udf else {})})
@@ -110,6 +112,11 @@ def build_seed(k):
                 h.apply({'op': 'add_eltorito', 'bootfile_path': '/BOOTX%d.;1' % j, 'platform_id': plat})
         if k == 5:
             h.apply({'op': 'add_isohybrid', 'efi': True})
+        if k == 10:
+            # one 512-byte sector per cylinder: more than 1024 cylinders (the MBR's end cylinder is
+            # saturated, its two high bits live in the end-sector byte)
+            h.apply({'op': 'add_fp', 'cid': 720, 'length': 700000, 'iso_path': '/ZFILL.;1', 'rr_name': 'zfill'})
+            h.apply({'op': 'add_isohybrid', 'geometry_heads': 1, 'geometry_sectors': 1})
     img, oc = h.sess.write()
     if not oc.ok:
         raise RuntimeError('seed %d write failed: %s' % (k, oc.summary()))
@@ -201,7 +208,7 @@ def seed(k):
     return _seeds[k]
 
 
-NSEEDS = 10
+NSEEDS = 11
 
 
 def dag_fault(data, levels):
@@ -440,6 +447,11 @@ def sweep_list(k):
             for off in range(s_, e_):
                 out.append((kind, off, 1, 0xff))
                 out.append((kind, off, 1, 0x7f))
+                if kind.startswith('mbr'):
+                    # CHS bytes pack two fields: the high bits alone, the low bits alone, nothing
+                    out.append((kind, off, 1, 0xc0))
+                    out.append((kind, off, 1, 0x3f))
+                    out.append((kind, off, 1, 0x00))
                 if (off - s_) % 4 == 0 and off + 4 <= len(data):
                     out.append((kind, off, 4, 0xffffffff))
         if ce_entries(data):
